@@ -260,7 +260,8 @@ func shapeMain(args []string) error {
 				face, id := face, fmt.Sprintf("%s#%d", cf.ID, xi)
 				rng := rand.New(rand.NewSource(seed*7 + int64(fi)*131 + int64(xi)))
 				own := ownRunes(face, 4000)
-				texts := [][]rune{{0x0301, 'a', 'b'}, {0x0651, 0x0628, 0x0644}, {0x093C, 0x0915}, []rune("fi A")}
+				texts := [][]rune{{0x0301, 'a', 'b'}, {0x0651, 0x0628, 0x0644}, {0x093C, 0x0915}, []rune("fi A"),
+					{0x2060, 'a', 'b', 'c'}, {'a', 0x00AD, 'b', 0x200B}, {0x200D, 0x0628, 0x200C, 0x0644}, {0xFE0F, 'x', 0x034F}}
 				for k := 0; k < 6 && len(own) > 0; k++ {
 					L := 1 + rng.Intn(8)
 					t := make([]rune, L)
